@@ -457,7 +457,50 @@ fn directed(t: &mut Trace) {
     s.vault_op(t, "deposit", 50, [VAULT, 2, 2], &[2], true); // shares minted to the vault itself
     s.vault_op(t, "redeem", 1, [0, VAULT, 0], &[0], true); // nobody can spend the vault's own shares
 
-    // 4. constructor bound
+    // 4. exits with every combination of the three roles (receiver, owner, operator), for BOTH
+    //    withdraw and redeem, with every user holding shares: a mix-up of owner and receiver
+    //    (or of whose allowance is spent) goes through silently only when the wrong party also
+    //    holds shares / has approved the operator, which is exactly what is set up here
+    t.seq("directed exit roles offset=2 min_temp=1 start=100");
+    let mut s = Sim::new(1, 100);
+    s.construct(t, 2);
+    for (i, amt) in [(0usize, 1_000_003i128), (1, 700_001), (2, 500_009), (3, 90_007)] {
+        s.token_op(t, "a_mint", amt, &[i], 0, &[]);
+        s.vault_op(t, "deposit", amt - 7, [i, i, i], &[i], true);
+    }
+    s.token_op(t, "a_transfer", 5, &[3, VAULT], 0, &[3]); // uneven rate
+    for kind in ["withdraw", "redeem"] {
+        let x: i128 = if kind == "withdraw" { 301 } else { 30_011 };
+        // all three equal
+        s.vault_op(t, kind, x, [0, 0, 0], &[0], true);
+        // operator == owner != receiver (receiver holds shares too)
+        s.vault_op(t, kind, x, [1, 0, 0], &[0], true);
+        // operator == receiver != owner, receiver holds shares: no allowance yet -> must fail
+        s.vault_op(t, kind, x, [1, 0, 1], &[1], true);
+        // ... the owner approves the operator: must burn the OWNER's shares, pay the receiver,
+        // spend the owner's allowance
+        s.token_op(t, "s_approve", 2_000_000, &[0, 1], 5000, &[0]);
+        s.vault_op(t, kind, x, [1, 0, 1], &[1], true);
+        // receiver == owner != operator (operator approved above)
+        s.vault_op(t, kind, x, [0, 0, 1], &[1], true);
+        // all distinct; only the RECEIVER has approved the operator -> must fail
+        s.token_op(t, "s_approve", 2_000_000, &[2, 3], 5000, &[2]);
+        s.vault_op(t, kind, x, [2, 0, 3], &[3], true);
+        // all distinct; owner and receiver have both approved the operator: only the owner's
+        // allowance and shares may move
+        s.token_op(t, "s_approve", 2_000_000, &[0, 3], 5000, &[0]);
+        s.vault_op(t, kind, x, [2, 0, 3], &[3], true);
+        // all distinct, the receiver holds no allowance relation at all
+        s.vault_op(t, kind, x, [1, 0, 3], &[3], true);
+        // the receiver signs instead of the operator
+        s.vault_op(t, kind, x, [2, 0, 3], &[2], true);
+        // reset the allowances for the second round
+        s.token_op(t, "s_approve", 0, &[0, 1], 5000, &[0]);
+        s.token_op(t, "s_approve", 0, &[2, 3], 5000, &[2]);
+        s.token_op(t, "s_approve", 0, &[0, 3], 5000, &[0]);
+    }
+
+    // 5. constructor bound
     t.seq("directed offset bound min_temp=1 start=100");
     let mut s = Sim::new(1, 100);
     s.construct(t, 11);
@@ -528,9 +571,29 @@ fn main() {
                 } else {
                     p(&mut rng)
                 };
-                let operator = if rng.chance(72) { party } else if rng.chance(4) { VAULT } else { p(&mut rng) };
-                let receiver = if rng.chance(55) { party } else if rng.chance(8) { VAULT } else { p(&mut rng) };
+                let mut operator = if rng.chance(72) { party } else if rng.chance(4) { VAULT } else { p(&mut rng) };
+                let mut receiver = if rng.chance(55) { party } else if rng.chance(8) { VAULT } else { p(&mut rng) };
                 let inflow = kind == "deposit" || kind == "mint";
+                // exits paid to ANOTHER share holder, often pulled by that holder itself or by an
+                // operator the receiver has approved too: the combinations in which confusing
+                // owner and receiver (or whose allowance is spent) would not simply fail
+                if !inflow && party != VAULT && rng.chance(35) {
+                    let others: Vec<usize> = holders.iter().cloned().filter(|&i| i != party).collect();
+                    if !others.is_empty() {
+                        receiver = *rng.pick(&others);
+                        operator = match rng.below(10) {
+                            0..=4 => receiver,
+                            5..=6 => party,
+                            _ => p(&mut rng),
+                        };
+                        if operator != receiver && operator != VAULT && rng.chance(60) && s.sallow(receiver, operator) == 0 {
+                            let lu = s.now + *rng.pick(&[16u32, 50, 300]);
+                            marks.push(lu);
+                            s.token_op(&mut t, "s_approve", s.sbal(receiver), &[receiver, operator], lu, &[receiver]);
+                        }
+                        t.count("exit_to_holder");
+                    }
+                }
                 // mostly make the allowance path viable before using it
                 if operator != party && party != VAULT && operator != VAULT && rng.chance(65) {
                     let have = if inflow { s.aallow(party, operator) } else { s.sallow(party, operator) };
@@ -547,7 +610,14 @@ fn main() {
                         s.token_op(&mut t, if inflow { "a_approve" } else { "s_approve" }, amt, &[party, operator], lu, &[party]);
                     }
                 }
-                let x = pick_amount(&mut rng, &s, kind, party, operator);
+                let mut x = pick_amount(&mut rng, &s, kind, party, operator);
+                if !inflow && receiver != party && receiver != VAULT && rng.chance(50) {
+                    // something both the owner and the receiver could afford
+                    let cap = if kind == "redeem" { s.sbal(party).min(s.sbal(receiver)) } else { s.qa("max_withdraw", party).unwrap_or(0).min(s.qa("max_withdraw", receiver).unwrap_or(0)) };
+                    if cap > 0 {
+                        x = (cap / *rng.pick(&[1i128, 2, 3, 7])).max(1);
+                    }
+                }
                 let auth = gen_auth(&mut rng, operator, &[receiver, party, operator]);
                 let sub = !rng.chance(4);
                 // statistics: does the intermediate product leave i128 (phantom overflow path)?
